@@ -496,6 +496,11 @@ def replay(ob):
     from props import C20_native
     sec = ob.id.split(".")[0].split("[")[0]
     sec = {"scaled": "scaled", "wrapped": "wrapped", "swap": "swap", "complete": "complete", "min": "min", "inertia": "inertia", "com": "com"}.get(sec)
+    if ob.id == "audit":
+        allf = []
+        for sc in ("scaled", "wrapped", "swap", "complete", "min", "inertia", "com"):
+            allf += C20_native.check(sc)
+        return {"reproduced": bool(allf), "failing_inputs": allf[:3], "section": "all"}
     if sec is None:
         return {"reproduced": False, "note": "no native section for %s" % ob.id}
     fails = C20_native.check(sec)
